@@ -52,14 +52,14 @@ class SQueue:
   def put(self, item, block=True, timeout=None):
     if not block:
       return self.put_nowait(item)
-    _pt("put", self, enabled=lambda: not self._full())
+    _pt("put", self, (ident(item),), enabled=lambda: not self._full())
     if self._full():          # only reachable without a scheduler
       raise _queue.Full
     self._put(item)
     _res(self._size())
 
   def put_nowait(self, item):
-    _pt("put_nowait", self)
+    _pt("put_nowait", self, (ident(item),))
     if self._full():
       _res("Full")
       raise _queue.Full
@@ -73,7 +73,7 @@ class SQueue:
     if self._size() == 0:
       raise _queue.Empty
     r = self._get()
-    _res(self._size())
+    _res(ident(r))
     return r
 
   def get_nowait(self):
@@ -82,7 +82,7 @@ class SQueue:
       _res("Empty")
       raise _queue.Empty
     r = self._get()
-    _res(self._size())
+    _res(ident(r))
     return r
 
   def qsize(self):
@@ -127,11 +127,21 @@ _D = collections.deque
 
 def ident(x):
   """small stable identity of a queued item for the trace (event id when it has one)"""
-  p = getattr(x, "payload", None)
+  if type(x).__name__ == "FabricEvent":        # [event id, priority, signal name]
+    return [ident(x.event), x.priority, x.event.signal_name]
+  if isinstance(x, (str, int)) or x is None:
+    return x if x is not None else ""
+  try:
+    p = x.payload if "payload" in getattr(x, "__dict__", {}) else None
+  except Exception:
+    p = None
   if isinstance(p, int) and not isinstance(p, bool):
     return p
-  sn = getattr(x, "signal_name", None)
-  return sn if sn is not None else str(x)[:24]
+  try:
+    sn = getattr(x, "signal_name", None)
+  except Exception:
+    sn = None
+  return sn if isinstance(sn, str) else str(x)[:24]
 
 
 class SDeque(collections.deque):
